@@ -13,4 +13,5 @@ go build -tags verif -o .bin/evcheck ./cmd/evcheck
 .bin/rewrite -maporder keyper/kproapi -vos "" -out .gen/overlay-apicheck
 go build -tags verif -overlay .gen/overlay-apicheck/overlay.json -o .bin/apicheck ./cmd/apicheck
 go build -tags verif -o .bin/trigcheck ./cmd/trigcheck
+go build -tags verif -o .bin/svccheck ./cmd/svccheck
 echo setup ok
